@@ -1,19 +1,19 @@
 #!/bin/bash
 # usage: tools/mutest.sh <patch.diff> <property> [extra vcheck args]
 # applies a seeded change to /repo, runs the check, and ALWAYS reverts /repo.
+# Evidence of these sensitivity runs goes to a scratch directory, never to /verif/evidence.
 set -u
 patch=$1; prop=$2; shift 2
 cd /repo || exit 2
 if ! git diff --quiet; then echo "repo dirty, refusing"; exit 2; fi
-if ! git apply --3way "$patch" 2>/tmp/mutest.apply.err; then
-  if ! patch -p1 --no-backup-if-mismatch < "$patch" >/tmp/mutest.apply.err 2>&1; then
-    echo "APPLY-FAILED"; cat /tmp/mutest.apply.err; git reset --hard -q HEAD; git clean -fdq; exit 2
-  fi
+if ! git apply "$patch" 2>/tmp/mutest.apply.err; then
+  echo "APPLY-FAILED"; cat /tmp/mutest.apply.err; git checkout -- .; exit 2
 fi
-git reset -q
 cd /verif
-./bin/vcheck -property "$prop" "$@" 2>&1 | grep -v "^instrumented" | tail -12
+export VERIF_EVIDENCE_DIR=$(mktemp -d /tmp/mutest-ev-XXXXXX)
+./bin/vcheck -property "$prop" "$@" 2>&1 | grep -v "^instrumented" | tail -14
 rc=${PIPESTATUS[0]}
-git -C /repo reset --hard -q HEAD; git -C /repo clean -fdq
+rm -rf "$VERIF_EVIDENCE_DIR"
+git -C /repo checkout -- .; git -C /repo clean -fdq
 echo "mutest: exit=$rc"
 exit $rc
